@@ -76,8 +76,14 @@ def main():
                 for s in SIZE_STAGES:
                     if s in st and st[s][0] == "OK":
                         sizes[k][s] = size_of(s, st[s][1])
+                # progressive test: stop deepening a family as soon as the growth is super-cubic (an exponential
+                # family would otherwise exhaust memory before depth K is reached)
+                if k >= 4 and k < K and (k // 2) in sizes:
+                    if any(s in sizes[k] and s in sizes[k // 2] and sizes[k // 2][s] > 0 and math.log(sizes[k][s] / sizes[k // 2][s]) / math.log(2) > 3.0 for s in SIZE_STAGES):
+                        break
             table[fam] = sizes
-            lo, hi = K // 2, K
+            hi = max(sizes) if sizes else K
+            lo = hi // 2
             if lo in sizes and hi in sizes:
                 for s in ["src"] + SIZE_STAGES:
                     if s in sizes[lo] and s in sizes[hi] and sizes[lo][s] > 0:
